@@ -9,7 +9,7 @@ import re
 from .common import hx, unhx
 
 ID = 'C02'
-GEN_DEPS = ['GenReqHeaders', 'GenConsts']
+GEN_DEPS = ['GenReqHeaders', 'GenConsts', 'GenFieldName']
 RULE = ('first reads from a request grammar (7 methods, 0-8 headers mixing standard names in canonical/lower/upper/mixed case and custom names, '
         'repeated names, bodies 0-3000 arbitrary bytes, body split between first read and the rest) and a malformed stream (truncations, byte '
         'mutations, bad version, missing separators, Content-Length non-numeric/overflowing/>=2^32, non-UTF-8, NULs); non-trivial = accepted with '
